@@ -276,16 +276,23 @@ func (p *c02Proj) result(r *conformancev1.ClientResponseResult, restrict bool) v
 
 func c02ProjFor(tc *conformancev1.TestCase, orig *conformancev1.TestCase) *c02Proj {
 	p := &c02Proj{reqNames: c02Names(orig.Request.RequestHeaders)}
-	// response names: whatever the first request's definition declares
+	// response names: whatever ANY request's definition declares (only the first one's may show up: a peer that
+	// honours a later definition is seen by its metadata too, not only by its payloads)
 	p.rspNames = map[string]bool{}
-	if len(orig.Request.RequestMessages) > 0 {
-		if m, err := orig.Request.RequestMessages[0].UnmarshalNew(); err == nil {
-			switch m := m.(type) {
-			case unaryResponseDefiner:
-				p.rspNames = c02Names(m.GetResponseDefinition().GetResponseHeaders(), m.GetResponseDefinition().GetResponseTrailers())
-			case streamResponseDefiner:
-				p.rspNames = c02Names(m.GetResponseDefinition().GetResponseHeaders(), m.GetResponseDefinition().GetResponseTrailers())
-			}
+	for _, rm := range orig.Request.RequestMessages {
+		m, err := rm.UnmarshalNew()
+		if err != nil {
+			continue
+		}
+		var more map[string]bool
+		switch m := m.(type) {
+		case unaryResponseDefiner:
+			more = c02Names(m.GetResponseDefinition().GetResponseHeaders(), m.GetResponseDefinition().GetResponseTrailers())
+		case streamResponseDefiner:
+			more = c02Names(m.GetResponseDefinition().GetResponseHeaders(), m.GetResponseDefinition().GetResponseTrailers())
+		}
+		for k := range more {
+			p.rspNames[k] = true
 		}
 	}
 	_ = tc
